@@ -190,7 +190,8 @@ def check_layers(case) -> Outcome:
         vname = name
     else:
         # a callable name that also exists as a built-in transform
-        name = "log"
+        # ("center" is a *stateful* built-in: a plain function of that name in the context must be called as a plain one)
+        name = "center" if case.get("vname", 0) % 2 else "log"
         if "context" in layers:
             ctx[name] = lambda x: x * 100
         if "data" in layers:
@@ -202,7 +203,7 @@ def check_layers(case) -> Outcome:
         elif "context" in layers:
             exp, src = k * 100, "context"
         else:
-            exp, src = np.log(k), "transforms"
+            exp, src = (np.log(k) if name == "log" else k - k.mean()), "transforms"
         vname = name
     df = pd.DataFrame(data)
     if usage != "callable":
@@ -222,6 +223,22 @@ def check_layers(case) -> Outcome:
             from formulaic import ModelSpec
 
             mm = ModelSpec(formula=Formula(s), output="pandas").get_model_matrix(df, context=ctx)
+        elif case.get("ctx_kind") == "layered":
+            # the context is itself an (unnamed) layered mapping
+            from formulaic.utils.layered_mapping import LayeredMapping
+
+            out.label("context:layered-mapping")
+            mm = Formula(s).get_model_matrix(df, context=LayeredMapping(ctx, {"unused_name": 1}))
+        elif case.get("ctx_kind") == "captured":
+            # the caller's frame is captured (model_matrix's default): locals take precedence over module globals
+            import formulaic
+
+            out.label("context:captured-frame")
+            g = {nm: ((lambda x: x * -1.0) if callable(v_) else np.full(4, -1.0)) for nm, v_ in ctx.items()}  # module globals of the same names
+            g["__builtins__"] = __builtins__
+            code = "def _call(s, df, fn, VALS):\n" + "".join(f"    {nm} = VALS[{nm!r}]\n" for nm in ctx) + "    return fn(s, df)\n"
+            exec(code, g)  # noqa: S102 - fixed template
+            mm = g["_call"](s, df, formulaic.model_matrix, ctx)
         else:
             mm = Formula(s).get_model_matrix(df, context=ctx)
     except FactorEvaluationError as e:
@@ -253,6 +270,7 @@ def gen_layers():
             "usage": st.sampled_from(["lookup", "python-value", "callable"]),
             "entry": st.sampled_from(["formula", "formula", "spec", "spec-overrides"]),
             "vname": st.integers(0, 3),
+            "ctx_kind": st.sampled_from(["dict", "dict", "layered", "captured"]),
             "layers": st.sets(st.sampled_from(["data", "context", "builtin"]), min_size=1, max_size=3).map(lambda s: s | {"builtin"} if False else s),
         }
     )
